@@ -42,10 +42,25 @@ E = {
     "failimport": ("import std.nope;", "", [], ["nope"]),
     "impmath": ("import std.math;", "import std.math;", [], ["math"]),
     "usemath": ("print('abs', math.abs(-2));", "print('abs', math.abs(-2));", ["math"], []),
+    # user modules: good ones (with call/property sites of their own), one that fails to compile, one that raises while loading
+    "impgood": ("import self.good;", "import self.good;", [], ["good"]),
+    "usegood": ("print('g', good.g(good.p));", "print('g', good.g(good.p));", ["good"], []),
+    "impgood2": ("import self.good2;", "import self.good2;", [], ["good2"]),
+    "usegood2": ("print('h', good2.h(good2.q), good2.h(good2.q));", "print('h', good2.h(good2.q), good2.h(good2.q));", ["good2"], []),
+    "impbad": ("import self.bad;", "", [], ["bad"]),
+    "imprt": ("import self.rt;", "print('rt loading');", [], ["rt"]),
     "loop": ("for i in 2.times() { print('i', i); }", "for i in 2.times() { print('i', i); }", [], []),
 }
 QUICK = ["defx", "updx", "getx", "callgetx", "clsA", "callfoo", "prop", "usefooA", "usepropA", "bad", "raise", "rtfail", "clsB", "usefooB", "faildecl", "faildecl_g", "failimport"]
-ALL = list(E.keys())
+IMPORT_ONLY = ["impgood", "usegood", "impgood2", "usegood2", "impbad", "imprt"]
+ALL = [k for k in E if k not in IMPORT_ONLY]
+IMPORTS = ["impgood", "usegood", "impgood2", "usegood2", "impbad", "imprt", "failimport", "clsA", "callfoo", "usefooA", "bad", "faildecl"]
+FILES = {
+    "/v/good.lay": "export fn g(a) { return a.v; } class P { init() { self.v = 7; } } export let p = P(); print('good loaded', g(p));",
+    "/v/good2.lay": "export fn h(a) { return a.w() + a.x; } class Q { init() { self.x = 9; } w() { return 1; } } export let q = Q(); print('good2 loaded', h(q));",
+    "/v/bad.lay": "print('bad loading'); let = ;",
+    "/v/rt.lay": "print('rt loading'); export let z = 1; nil.nope(); print('not reached');",
+}
 
 
 def valid(seq):
@@ -63,7 +78,7 @@ def valid(seq):
 class C19(Check):
     id = "C19"
     level = "exploration"
-    rule = ("all sequences of <= L prompt entries (L=5 quick over a 17 entry alphabet; thorough: L=5 over 28 entries plus L=6 over the 17) that respect "
+    rule = ("all sequences of <= L prompt entries (L=5 quick over a 17 entry alphabet; thorough: L=5 over 28 entries plus L=6 over the 17) plus L=5 (6 thorough) over a 12 entry alphabet of user-module imports (good, failing to compile, raising while loading) that respect "
             "define-before-use; each sequence: Vm::repl with scripted stdin vs Vm::run on the concatenation of the entries that take "
             "effect (lines failing to compile dropped, raising lines wrapped in try); oracle = equal stdout, REPL ends normally. "
             "non-trivial = a sequence in which a later line executes code (call/property/invoke site) compiled on an earlier line")
@@ -85,13 +100,15 @@ class C19(Check):
 
     def gen(self, tier):
         if tier == "thorough":
-            plans = [(ALL, 5), (QUICK, 6)]
+            plans = [(ALL, 5), (QUICK, 6), (IMPORTS, 6)]
         else:
-            plans = [(QUICK, 5)]
+            plans = [(QUICK, 5), (IMPORTS, 5)]
         seen_upto = 0
         for alpha, L in plans:
             for n in range(1, L + 1):
                 for seq in itertools.product(alpha, repeat=n):
+                    if alpha is IMPORTS and not any(x in IMPORT_ONLY for x in seq):
+                        continue  # covered by the other plans
                     if valid(seq) and not (seen_upto and n <= 5 and all(x in ALL for x in seq) and alpha is QUICK):
                         yield seq
             seen_upto = L
@@ -102,11 +119,14 @@ class C19(Check):
     def build(self, spec):
         lines = [E[n][0] for n in spec]
         filetext = "\n".join(E[n][1] for n in spec if E[n][1]) + "\n"
-        return [{"repl": lines, "step_limit": 2000000}, {"src": filetext, "step_limit": 2000000}], None
+        files = dict(FILES)
+        files["/v/main.lay"] = filetext
+        return [{"repl": lines, "files": FILES, "entry": "/v/main.lay", "step_limit": 2000000},
+                {"files": files, "entry": "/v/main.lay", "step_limit": 2000000}], None
 
     def judge(self, spec, ctx, rs):
         rp, fl = rs
-        cross = any(n in ("callgetx", "usefooA", "usefooB", "usepropA", "usepropB", "callinc") for n in spec)
+        cross = any(n in ("callgetx", "usefooA", "usefooB", "usepropA", "usepropB", "callinc", "usegood", "usegood2") for n in spec)
         if fl.get("class") != "ok":
             v = Verdict(False, cross, "file-not-ok", "the file version did not run cleanly (model error?): class=%s err=%r" % (fl.get("class"), fl.get("err", "")[-300:]))
             v.extra["machinery"] = True
